@@ -600,6 +600,7 @@ static void* child_main(void* arg) {
     if (code == 0) { code = sp.exit_code; }
     sim_close(c->out_fd);
     c->status = (code & 0xff) << 8;
+    if (code == sp.exit_code && sp.kill_signal) { c->status = sp.kill_signal & 0x7f; }   // WIFSIGNALED
     c->done = true;
     return nullptr;
 }
